@@ -9,6 +9,13 @@ import faulthandler
 
 def main():
     faulthandler.enable()
+    try:
+        # a changed library may blow up (e.g. 2**garbage): a bounded address space turns that into a MemoryError inside the run instead of taking the machine down
+        import resource
+        lim = int(os.environ.get('VERIF_WORKER_AS_GB', '12')) << 30
+        resource.setrlimit(resource.RLIMIT_AS, (lim, lim))
+    except Exception:
+        pass
     modname, fin, fout = sys.argv[1:4]
     with open(fin) as f:
         shard = json.load(f)
